@@ -17,6 +17,7 @@ import time
 import vlib
 
 PROPS = {"C07": "c07", "C08": "c08", "C09": "c09", "C10": "c10", "C19": "c19", "C15": "c15"}
+ALSO_BITS = {"C08": ["c07"]}
 PINS = {
     "C07": ["C07_no_early"],
     "C08": ["C08_on_time"],
@@ -157,6 +158,38 @@ class Gen:
                 keys["F"].append(len(ops) - 1)
                 hint.append(t)
             cur = cur + r.choice([1, STEP, 2 * STEP, NS, 5 * NS])
+            ops.append("run %d" % cur)
+        if r.random() < (0.08 if focus == "C10" else 0.02):
+            # a burst of more than 32 var-slot timers, all gone again (deleted or fired) so that the runtime is completely
+            # idle, then new var timers reusing the slots, then the OLD keys are used: they must stay inert
+            self.count("scen:var-burst")
+            burst = []
+            for _ in range(r.randrange(33, 41)):
+                cb += 1
+                kind = r.choice(["addmax", "addmin", "add"])
+                t = cur + (33000 + r.randrange(0, 2000)) * NS if kind == "add" else cur + r.randrange(1, 2000) * NS
+                ops.append("%s %d %d" % (kind, t, cb))
+                keys[{"add": "F", "addmax": "M", "addmin": "N"}[kind]].append(len(ops) - 1)
+                burst.append((kind, len(ops) - 1))
+            if r.random() < 0.6:
+                for kind, ix in burst:
+                    ops.append("%s k%d" % ({"add": "del", "addmax": "delmax", "addmin": "delmin"}[kind], ix))
+            else:
+                cur = cur + 36000 * NS
+                ops.append("run %d" % cur)
+            for _ in range(r.randrange(1, 4)):
+                cb += 1
+                kind = r.choice(["addmax", "addmin", "add"])
+                t = cur + (33000 + r.randrange(0, 2000)) * NS if kind == "add" else cur + r.randrange(1, 2000) * NS
+                ops.append("%s %d %d" % (kind, t, cb))
+                keys[{"add": "F", "addmax": "M", "addmin": "N"}[kind]].append(len(ops) - 1)
+            for kind, ix in r.sample(burst, 6):
+                c2 = r.random()
+                if c2 < 0.4:
+                    ops.append("%s k%d" % ({"add": "del", "addmax": "delmax", "addmin": "delmin"}[kind], ix))
+                elif kind != "add":
+                    ops.append(("act%s k%d" % (kind[3:], ix)) if c2 < 0.7 else ("mod%s k%d %d" % (kind[3:], ix, cur + r.randrange(1, 3000) * NS)))
+            cur = cur + r.randrange(1, 40000) * NS
             ops.append("run %d" % cur)
         if r.random() < 0.07:
             # far var-slot timers re-queued by advance() with the 0x7FFF s clamp active, then deleted / updated /
@@ -685,7 +718,7 @@ def run(prop, tier, seed):
         searching = bool(problems or drift or outcome.disagree)
         if time.time() - t_start > (150 if tier == "quick" and not searching else 1100):
             break
-        if searching and outcome.monfail.get(bit) and b0 >= 2000:
+        if searching and (outcome.monfail.get(bit) or any(outcome.monfail.get(b2) for b2 in ALSO_BITS.get(prop, []))) and b0 >= 2000:
             break          # a failing input for this property is in hand
     if outcome.disagree:
         problems.append("correspondence: real crate and model disagree in %d cases (first: %s op %d: real %r, model %r)" % ((len(outcome.disagree),) + outcome.disagree[0]))
@@ -694,11 +727,16 @@ def run(prop, tier, seed):
     listed = set(f.get("class") for f in vlib.known_findings() if f.get("status") == "known")
     known_seen = {}
     fresh = []
-    for cname, j in outcome.monfail.get(bit, []):
+    # C08 also says "Max timers honour the greatest and Min timers the smallest expiry supplied": a var timer firing
+    # before that expiry does not honour it, so the no-early monitor (true of the model: C07_no_early) is judged too
+    allfails = [(bit, c_, j_) for c_, j_ in outcome.monfail.get(bit, [])]
+    for b2 in ALSO_BITS.get(prop, []):
+        allfails += [(b2, c_, j_) for c_, j_ in outcome.monfail.get(b2, [])]
+    for fbit, cname, j in allfails:
         tag_build, name = cname.split(":", 1)
         tag = tag_build.split("/")[0]
         ops = all_cases.get(tag + ":" + name, [])
-        cls = program_classes(ops, all_real.get(cname, [])) & CLASS_OF_BIT.get(bit, set()) & listed
+        cls = program_classes(ops, all_real.get(cname, [])) & CLASS_OF_BIT.get(fbit, set()) & listed
         if cls:
             c = sorted(cls)[0]
             known_seen.setdefault(c, "%s class=%s (e.g. %s op %d)" % (
@@ -706,16 +744,16 @@ def run(prop, tier, seed):
                  "SeqWrap": "31-bit fixed-timer sequence wraps between the timers compared / between issue and use of a key;",
                  "NearBoundaryVar": "identical fixed timers within two steps below 32767 s ahead run in reverse creation order;"}[c], c, cname, j))
         else:
-            fresh.append((cname, j, ops))
+            fresh.append((cname, j, ops, fbit))
     reported = False
     if fresh:
-        cname, j, ops = fresh[0]
+        cname, j, ops, fbit = fresh[0]
         name = cname.split(":", 1)[1]
-        small = shrink(bins, driver, name, ops, j, bit) if ops else []
-        if small and (program_classes(small, []) & CLASS_OF_BIT.get(bit, set()) & listed):
+        small = shrink(bins, driver, name, ops, j, fbit) if ops else []
+        if small and (program_classes(small, []) & CLASS_OF_BIT.get(fbit, set()) & listed):
             small = ops[:j + 1]     # shrinking must not wander into a known class
         path = write_replay(prop, "monitor-%s.txt" % name.replace(" ", "_"),
-                            ["VIOLATION of %s: the %s monitor is false on a REAL trace of the crate at %s" % (prop, bit, vlib.REPO),
+                            ["VIOLATION of %s: the %s monitor is false on a REAL trace of the crate at %s" % (prop, fbit, vlib.REPO),
                              "found in %s at op %d; shrunk to %d ops; %d failing cases in total" % (cname, j, len(small), len(fresh))],
                             name, small or ops, bins, driver)
         vlib.violation(prop, path)
